@@ -274,8 +274,7 @@ def replay(prop, path, harnesses):
                                      R.dec_inputs(d['inputs']), ())
     except Exception as e:
         print('replay raised %s: %s' % (type(e).__name__, e))
-        print('VIOLATION property=%s replay=%s' % (prop, path))
-        return 1
+        return 2
     print('observed:', json.dumps(R.jsonable(got), default=str)[:2000])
     if fails:
         print('failed obligations:', fails)
